@@ -39,7 +39,7 @@ SOURCES = ['path', 'gz', 'bz2', 'memory']
 ENCODINGS = [None, 'utf-8', 'utf-8-sig', 'utf-16', 'utf-16-le', 'utf-32', 'latin-1', 'cp1252', 'ascii']
 REQUIRED = (['fmt:' + f for f in FORMATS] + ['source:' + s for s in SOURCES] + ['encoding:%s' % e for e in ENCODINGS] +
             ['quoting:%d-judged' % q for q in (0, 1, 2, 3)] + ['cell-with-delimiter', 'cell-with-quotechar', 'cell-with-CR', 'cell-with-LF',
-             'cell-with-CRLF', 'cell-with-NUL', 'append-bytes-compared', 'write_header=False', 'header-on-read', 'stdlib-not-lossless-skipped', 'target-held-older-longer-content'])
+             'cell-with-CRLF', 'cell-with-NUL', 'append-bytes-compared', 'write_header=False', 'header-on-read', 'stdlib-not-lossless-skipped', 'target-held-older-longer-content', 'append-with-write_header=True', 'tojson-prefix-suffix'])
 
 ALPHA = [',', ';', '\t', '|', '"', "'", '\r', '\n', '\r\n', '\0', ' ', 'é', 'ü', '€', '漢', 'a', 'b', 'Z', '0', '1', '', '']
 TYPED = [None, 0, 1, -2, 2.5, True, False, gen.D(2020, 1, 1), (1, 'x'), b'by', 1e100]
@@ -59,6 +59,7 @@ def cases(ctx):
         nf = rng.randint(1, 3)
         n = rng.choice([0, 1, 2, 3, 4, 5])
         c = {'fmt': fmt, 'source': rng.choice(SOURCES), 'appends': rng.choice([0, 0, 1, 2, 3]), 'prefill': rng.random() < 0.3}
+        c['append_header'] = c['appends'] > 0 and rng.random() < 0.2      # append*(write_header=True): the header row is appended too
         if fmt in ('csv', 'tsv'):
             def cell():
                 return rng.choice(TYPED) if rng.random() < 0.2 else _text(rng)
@@ -180,7 +181,11 @@ def _judge_csv(case, ctx):
     table = copy.deepcopy(case['table'])
     enc = case['encoding']
     args = dict(case['csvargs'])
-    extra = copy.deepcopy(case['extra'])
+    blocks = copy.deepcopy(case['extra'])              # what each append* call is given (besides the header)
+    ah = bool(case.get('append_header')) and bool(blocks)
+    extra = [[list(table[0])] + blk for blk in blocks] if ah else blocks      # what each call is expected to add to the file
+    if ah:
+        ctx.seen('append-with-write_header=True')
     allrows = [list(r) for r in table] + [r for blk in extra for r in blk]
     rendered = [[_render(v) for v in r] for r in allrows]
     text_all = ''.join(c for r in rendered for c in r)
@@ -253,8 +258,8 @@ def _judge_csv(case, ctx):
         r = util.attempt(lambda: to(table, t1, **wkw))
         if isinstance(r, util.Raised):
             return {'kind': 'exception', 'fn': 'to' + fmt, 'detail': r.text, 'where': r.where}
-        for blk in extra:
-            r = util.attempt(lambda: ap([table[0]] + blk, t1, **kw))
+        for blk in blocks:
+            r = util.attempt(lambda: ap([table[0]] + blk, t1, **(dict(kw, write_header=True) if ah else kw)))
             if isinstance(r, util.Raised):
                 return {'kind': 'exception', 'fn': 'append' + fmt, 'detail': r.text, 'where': r.where}
         # ---- read back
@@ -306,7 +311,11 @@ def _judge_csv(case, ctx):
 
 def _judge_pickle(case, ctx):
     table = copy.deepcopy(case['table'])
-    extra = copy.deepcopy(case['extra'])
+    blocks = copy.deepcopy(case['extra'])
+    ah = bool(case.get('append_header')) and bool(blocks)
+    extra = [[table[0]] + blk for blk in blocks] if ah else blocks      # the header object itself: it is pickled as it is
+    if ah:
+        ctx.seen('append-with-write_header=True')
     kw = {'protocol': case['protocol']}
     if len(table) > 2:
         ctx.mark_nontrivial()
@@ -324,8 +333,8 @@ def _judge_pickle(case, ctx):
         r = util.attempt(lambda: petl.topickle(table, t1, **wkw))
         if isinstance(r, util.Raised):
             return {'kind': 'exception', 'fn': 'topickle', 'detail': r.text, 'where': r.where}
-        for blk in extra:
-            r = util.attempt(lambda: petl.appendpickle([table[0]] + blk, t1, **kw))
+        for blk in blocks:
+            r = util.attempt(lambda: petl.appendpickle([table[0]] + blk, t1, **(dict(kw, write_header=True) if ah else kw)))
             if isinstance(r, util.Raised):
                 return {'kind': 'exception', 'fn': 'appendpickle', 'detail': r.text, 'where': r.where}
         first = list(table) if case['write_header'] else list(table[1:])
@@ -411,6 +420,24 @@ def _judge_json(case, ctx):
         if lines:
             wkw['lines'] = True
             wkw.pop('indent', None)
+        if case['affix'] and not lines:
+            # prefix / suffix wrap the document (JSONP style): what lies between them is the same array of objects
+            wkw['prefix'], wkw['suffix'] = 'callback(', ');'
+            r = util.attempt(lambda: petl.tojson(table, t1, **wkw))
+            if isinstance(r, util.Raised):
+                return {'kind': 'exception', 'fn': 'tojson', 'detail': r.text, 'where': r.where}
+            txt = _bytes(t1).decode('utf-8')
+            ctx.seen('tojson-prefix-suffix')
+            if not (txt.startswith('callback(') and txt.endswith(');')):
+                return {'kind': 'prefix-suffix-missing', 'text': txt[:100]}
+            got = json.loads(txt[len('callback('):-2])
+            exp = []
+            for r in rows:
+                sq = list(r)[:len(hdr)] + [None] * (len(hdr) - len(r))
+                exp.append({h: _jsonify(v) for h, v in zip(hdr, sq)})
+            if got != exp:
+                out.append({'kind': 'roundtrip-differs', 'fn': 'tojson(prefix, suffix)', 'expected': exp, 'observed': got})
+            return out
         r = util.attempt(lambda: petl.tojson(table, t1, **wkw))
         if isinstance(r, util.Raised):
             return {'kind': 'exception', 'fn': 'tojson', 'detail': r.text, 'where': r.where}
